@@ -130,6 +130,10 @@ let parse_op (o : string) (impl_step : string) : zop =
   | "inner" -> ZInner (nat 1, nat 2, z_of_int (refusal impl_step))
   | "trace" -> ZTrace (nat 1, z_of_int (refusal impl_step))
   | "stack" -> ZStack (nat 1, z_of_int (int_of_string f.(2)), List.map (fun i -> nat_of_int i) (ints f.(3)))
+  | "fma" ->
+    (* StdEng.FMA(a, x, y) = Mul(a, x, WithIncr(y)) ; FMAScalar(a, s, y) = MulScalar(a, s, true, WithIncr(y)) *)
+    ZBin (z_of_int (bin_code "mul"), nat 1, nat 2, MIncr (nat 3), false)
+  | "fmas" -> ZBinS (z_of_int (bin_code "mul"), nat 1, zi 2, true, MIncr (nat 3))
   | "concat" ->
     (* forms: "" = Dense.Concat, api = tensor.Concat, h = Hstack (axis 1, or 0 for rank 1),
        v = Vstack (axis 0); the generator uses h for rank >= 1 and v for rank >= 2 only *)
@@ -245,6 +249,8 @@ let operand_ids (o : string) : int list =
   | "new" -> []
   | "copy" -> [int_of_string f.(1); int_of_string f.(2)]
   | "bin" | "cmp" -> [int_of_string f.(2); int_of_string f.(3)]
+  | "fma" -> [int_of_string f.(1); int_of_string f.(2); int_of_string f.(3)]
+  | "fmas" -> [int_of_string f.(1); int_of_string f.(3)]
   | "bins" | "cmps" | "un" | "reduce" | "arg" -> [int_of_string f.(2)]
   | "stack" | "concat" -> int_of_string f.(1) :: ints f.(3)
   | "repeat" | "trace" -> [int_of_string f.(1)]
@@ -330,4 +336,40 @@ let run_prog = run_prog_gen false
 let () =
   register2 "prog" (fun a impl -> run_prog a.(0) a.(1) impl);
   (* progk: same programs, additionally observing every caller-owned axes slice after each step *)
-  register2 "progk" (fun a impl -> run_prog_gen true a.(0) a.(1) impl)
+  register2 "progk" (fun a impl -> run_prog_gen true a.(0) a.(1) impl);
+  (* proge <eng> <dt> <prog> (C20): a program run under a specialised engine.  The property
+     demands the DEFAULT engine's behaviour, so the SPEC is the StdEng model's observation
+     (status, shapes and logical contents of every tensor after every step); there is no separate
+     model of the engines' own code paths *)
+  register2 "proge" (fun a impl ->
+      let o = run_prog a.(1) a.(2) impl in
+      let isteps = Array.map strip_model_only (split_steps impl) in
+      let ssteps = Array.map (fun s -> s) (split_steps (strip_model_only o.model)) in
+      let ops = Array.of_list (split_ops a.(2)) in
+      let refused s = String.length s >= 3 && (String.sub s 0 3 = "err") in
+      (* "every operation they accept returns the same result as the default engine": a step that
+         either side refuses is outside the statement, and so is everything after it *)
+      let cut = ref (-1) in
+      Array.iteri (fun i s ->
+          if !cut < 0 && (refused s || (i < Array.length isteps && refused isteps.(i))) then cut := i) ssteps;
+      let n = if !cut < 0 then Array.length ssteps else !cut in
+      let spec = String.concat " # " (Array.to_list (Array.sub ssteps 0 n) @ (if !cut < 0 then [] else ["?"])) in
+      let k = ref (-1) in
+      for i = 0 to n - 1 do
+        if !k < 0 && (i >= Array.length isteps || isteps.(i) <> ssteps.(i)) then k := i
+      done;
+      let cls = if !k < 0 then "" else begin
+          (* the guard of the differing step, from the default model's state before it *)
+          let m = ref (empty_store : z store) in
+          for i = 0 to !k - 1 do
+            let (m', _) = zstep_model !m (parse_op ops.(i) "") in m := m'
+          done;
+          cur_model := !m;
+          let op = parse_op ops.(!k) "" in
+          let f = fields ops.(!k) in
+          let gn = gname (zguard !m op) in
+          let gn = if gn = "other" || gn = "ok" then "L" ^ String.concat "," (List.map (layout_tag !m) (operand_ids ops.(!k))) else gn in
+          Printf.sprintf "c20.%s:%s:%s" a.(0)
+            (f.(0) ^ (if Array.length f > 1 && (f.(0) = "bin" || f.(0) = "bins" || f.(0) = "lin") then "." ^ f.(1) else "")) gn
+        end in
+      { model = "-"; spec; cls })
